@@ -11,6 +11,7 @@ import (
 	"io"
 	"os"
 	"runtime"
+	"strings"
 	"sync"
 	"testing"
 	"time"
@@ -422,7 +423,9 @@ func TestVerif_Replies(t *testing.T) {
 			if caseNo <= skip {
 				continue
 			}
-			if !vThorough() && (mi+oi+int(vSeed()))%3 != 0 {
+			// quick tier: a seeded third of the byte-level mutations; the well-formed replies of other kinds always (they are few,
+			// and each one is a distinct protocol situation, not one more byte position)
+			if !vThorough() && !strings.HasPrefix(mu.desc, "wf:") && (mi+oi+int(vSeed()))%3 != 0 {
 				continue
 			}
 			tr.reset(kv{"kind": "reply", "op": op.name, "mut": mu.desc, "case": caseNo})
